@@ -22,7 +22,7 @@ def _scale(shape):
     if shape == "daily_series_utc":
         return 1, pd.Timestamp("2019-03-01T00:00:00Z"), "UTC", False
     if shape == "hourly_frame_chicago":
-        return 1, pd.Timestamp("2019-03-05T19:00:00Z"), "America/Chicago", True      # spans the March DST change
+        return 1, pd.Timestamp("2019-03-08T19:00:00Z"), "America/Chicago", True      # the March clock change (10 March 08:00Z) falls 1.5 days after the base: inside even the quick timeline
     if shape == "billing_frame_utc":
         return 30, pd.Timestamp("2018-01-07T06:00:00Z"), "UTC", True
     if shape == "daily_frame_kolkata":
